@@ -6,6 +6,7 @@ import (
 	"os"
 	"path/filepath"
 	"strings"
+	"sync"
 	"unicode/utf8"
 
 	"github.com/ddddddO/gtree"
@@ -172,6 +173,62 @@ func runC12(ctx *Ctx) *Report {
 		rep.Record(c, caseKey(c), len(c.Doc) >= 4, diffs)
 		rep.Count("entry:mkdir" + ifs(c.Dry, "-dry", "") + "/" + resultClass(realv))
 	})
+	// massive-mode entry points in an isolated worker process: a panic in a library goroutine kills the
+	// worker, which is reported with the input that did it
+	var mjobs []c12job
+	for i, d := range docs {
+		if len(d) > 3 && i%5 != 0 && !ctx.Thorough {
+			continue
+		}
+		if len(d) > 2000 {
+			continue
+		}
+		entries := []string{"text", "json", "yaml", "dry", "walk", "verify", "mkdir"}
+		if len(d) <= 2 {
+			for _, e := range entries {
+				mjobs = append(mjobs, c12job{e, hx(d)})
+			}
+		} else {
+			mjobs = append(mjobs, c12job{entries[i%len(entries)], hx(d)})
+		}
+	}
+	nw := ctx.Workers / 2
+	if nw < 1 {
+		nw = 1
+	}
+	jobc := make(chan c12job, 64)
+	var wg sync.WaitGroup
+	for w := 0; w < nw; w++ {
+		wg.Add(1)
+		go func() {
+			defer wg.Done()
+			p := startC12Worker()
+			defer func() { p.close() }()
+			for j := range jobc {
+				ans, crash := p.ask(j)
+				var diffs []Diff
+				if ans == "" {
+					diffs = []Diff{{What: "massive-mode entry point " + j.Entry + " crashed the process", Real: crash, Model: "every entry point returns normally"}}
+					p.close()
+					p = startC12Worker()
+				} else if ans == "hang" {
+					diffs = []Diff{{What: "massive-mode entry point " + j.Entry + " did not return within 15 s", Real: "hang", Model: "returns"}}
+					p.close()
+					p = startC12Worker()
+				} else if isBlankDoc(unhx(j.Doc)) && (j.Entry == "text" || j.Entry == "json" || j.Entry == "dry" || j.Entry == "walk") && ans != "ok nil 0" {
+					diffs = []Diff{{What: "blank-only input in massive mode must give empty output and nil", Real: ans, Model: "ok nil 0"}}
+				}
+				c := map[string]string{"kind": "c12-massive", "entry": j.Entry, "doc_hex": j.Doc, "doc_text": docText(unhx(j.Doc))}
+				rep.Record(c, "m:"+j.Entry+":"+j.Doc, len(j.Doc) >= 4, diffs)
+				rep.Count("massive-entry:" + j.Entry + "/" + strings.Fields(ans + " ?")[1])
+			}
+		}()
+	}
+	for _, j := range mjobs {
+		jobc <- j
+	}
+	close(jobc)
+	wg.Wait()
 	_ = bytes.MinRead
 	_ = os.Getpid
 	_ = filepath.Join
